@@ -216,10 +216,16 @@ PROPS = {
     },
     "C07": {
         "nt_rule": "preferred",
-        "level": "other", "module": "Resolvo.Props.C07",
-        "theorems": ["Resolvo.C07.firstChoice_favored", "Resolvo.C07.firstChoice_ranked", "Resolvo.C07.union_order"],
+        "level": "proof", "module": "Resolvo.Props.C07", "imports": ["Resolvo.MDet.CheckedProofs", "Resolvo.Abs.Preferred"],
+        "theorems": ["Resolvo.C07.preferred_exact_accepted", "Resolvo.C07.preferred_exact_checked", "Resolvo.C07.never_tries_anything_else",
+                     "Resolvo.Abs.accepted_all_agree", "Resolvo.Abs.decision_agrees", "Resolvo.Abs.go_subset_sel",
+                     "Resolvo.C07.firstChoice_favored", "Resolvo.C07.firstChoice_ranked", "Resolvo.C07.union_order"],
         "families": [("conflictfree", CF_Q), ("async-cf", {"quick": 6000, "thorough": 100000}), ("solve", SOLVE_Q)],
-        "explanation": "PROVED: characterisation of the first choice (favored first, then best rank; unions in listed order) in the SolverCache model. CHECKED PER RUN: whenever the driver finds the preferred closure consistent (C07 hypothesis), the implementation's solution must equal it as a set. NOT YET PROVED: the universal statement for the model of the search.",
+        "explanation": "PROVED (Lean, all universes / problems without soft requirements / histories): preferred_exact_accepted - if the closure of first choices is a valid selection in which each requirement is met only by its own first choice (preferredConsistent, C07's hypothesis made executable), then every solver history accepted by the decision-guarded abstract system Abs.runOptD that ends in a valid solution ends in exactly that closure, and no other solvable is even tried on the way (never_tries_anything_else). "
+                       "The proof is an invariant over the history: every trail entry agrees with the assignment the preferred selection induces - propagation derives only what all models of the clause database satisfy (provenance of clauses, unit reasons, RUP-checked learnt clauses), a decision picks the first undecided candidate (in SolverCache order: favored first, then sort_candidates order, union members as listed) of an unsatisfied requirement of a selected solvable, which is that requirement's first choice. preferred_exact_checked: the checked deterministic model of Solver::solve returns exactly the closure (no further hypothesis). firstChoice_*: what the first choice is. "
+                       "TIE: (i) the real solver's complete history is submitted to Abs.runOptD on every generated case (refinement obligation R4, tag mdet-decide-guard: a decision that `decide` cannot produce is rejected) and its answer to validB; (ii) MDet.solve equals the real solver exactly (result, solution order, call log, history), sync and under every async completion order; (iii) the implementation's solution is compared with the closure whenever the hypothesis holds. "
+                       "NOT PROVED: that the real decide() always passes the guard (checked per run); termination.",
+        "assumptions": ["the verif-hooks history is emitted faithfully", "provider contract WF"],
     },
     "C08": {
         "nt_rule": "bestdirect",
